@@ -1159,7 +1159,7 @@ class Normaliser(object):
 
     def run(self):
         if self.inline_only:
-            self._defs_to_lambdas = self._ifs_to_conditional_expressions = self._outline = self._merge_conditional_calls = self._split_parallel_assignments = self._for_else_to_early_exit = lambda: None
+            self._defs_to_lambdas = self._ifs_to_conditional_expressions = self._outline = self._merge_conditional_calls = self._split_parallel_assignments = self._for_else_to_early_exit = self._scalarise_private_namedtuples = lambda: None
         self._defs_to_lambdas()
         if not self.helpers:
             self._split_parallel_assignments()
@@ -1182,6 +1182,8 @@ class Normaliser(object):
                 break
             self._collect_refresh()
         self._drop_unused()
+        self._propagate_temporaries()
+        self._scalarise_private_namedtuples()
         self._propagate_temporaries()
         self._split_parallel_assignments()
         self._for_else_to_early_exit()
@@ -1289,6 +1291,118 @@ class Normaliser(object):
             for fn in [n for n in ast.walk(t) if isinstance(n, ast.FunctionDef)]:
                 if any(isinstance(x, (ast.For, ast.While)) and x.orelse for x in ast.walk(fn)):
                     rewrite(fn.body)
+
+    def _scalarise_private_namedtuples(self):
+        """a local bound once to a call of a private module-level namedtuple (`_X = namedtuple(..)`, new on this tree) and used only through
+        `.field` reads, plain aliases `y = x`, or `**x._asdict()`: the fields become locals of their own (`x__field`), assigned in the order
+        the constructor evaluated its arguments - the tuple object itself is never observed"""
+        norm_ = self
+        for mn, t in self.trees.items():
+            nts = {}
+            for s_ in t.body:
+                if isinstance(s_, ast.Assign) and len(s_.targets) == 1 and isinstance(s_.targets[0], ast.Name) and s_.targets[0].id.startswith('_') and \
+                        isinstance(s_.value, ast.Call) and isinstance(s_.value.func, (ast.Name, ast.Attribute)) and \
+                        (s_.value.func.id if isinstance(s_.value.func, ast.Name) else s_.value.func.attr) == 'namedtuple' and len(s_.value.args) == 2:
+                    f_ = s_.value.args[1]
+                    fields = None
+                    if isinstance(f_, (ast.List, ast.Tuple)) and all(isinstance(e, ast.Constant) and isinstance(e.value, str) for e in f_.elts):
+                        fields = [e.value for e in f_.elts]
+                    elif isinstance(f_, ast.Constant) and isinstance(f_.value, str):
+                        fields = f_.value.replace(',', ' ').split()
+                    if fields:
+                        nts[s_.targets[0].id] = fields
+            if not nts:
+                continue
+            for fn in [n for n in ast.walk(t) if isinstance(n, ast.FunctionDef)]:
+                binds = [n for n in _walk_own(fn) if isinstance(n, ast.Assign) and len(n.targets) == 1 and isinstance(n.targets[0], ast.Name) and
+                         isinstance(n.value, ast.Call) and isinstance(n.value.func, ast.Name) and n.value.func.id in nts]
+                for b in binds:
+                    name = b.targets[0].id
+                    fields = nts[b.value.func.id]
+                    if any(isinstance(a, ast.Starred) for a in b.value.args) or any(k.arg is None for k in b.value.keywords):
+                        continue
+                    given = dict(zip(fields, b.value.args))
+                    given.update({k.arg: k.value for k in b.value.keywords})
+                    if set(given) != set(fields):
+                        continue
+                    # names standing for the tuple: the local and plain aliases of it
+                    group = {name}
+                    grew = True
+                    while grew:
+                        grew = False
+                        for n in _walk_own(fn):
+                            if isinstance(n, ast.Assign) and len(n.targets) == 1 and isinstance(n.targets[0], ast.Name) and isinstance(n.value, ast.Name) and \
+                                    n.value.id in group and n.targets[0].id not in group:
+                                group.add(n.targets[0].id)
+                                grew = True
+                    stores = [n for n in ast.walk(fn) if isinstance(n, ast.Name) and n.id in group and isinstance(n.ctx, (ast.Store, ast.Del))]
+                    if len(stores) != len(group):
+                        continue        # rebound somewhere
+                    ok = True
+                    parents = {}
+                    for p_ in ast.walk(fn):
+                        for c_ in ast.iter_child_nodes(p_):
+                            parents[id(c_)] = p_
+                    uses = [n for n in ast.walk(fn) if isinstance(n, ast.Name) and n.id in group and isinstance(n.ctx, ast.Load)]
+                    for u in uses:
+                        par = parents.get(id(u))
+                        if isinstance(par, ast.Attribute) and par.value is u and par.attr in fields and isinstance(par.ctx, ast.Load):
+                            continue
+                        if isinstance(par, ast.Assign) and par.value is u and len(par.targets) == 1 and isinstance(par.targets[0], ast.Name) and par.targets[0].id in group:
+                            continue
+                        if isinstance(par, ast.Attribute) and par.attr == '_asdict':
+                            gp = parents.get(id(par))
+                            ggp = parents.get(id(gp)) if gp is not None else None
+                            if isinstance(gp, ast.Call) and not gp.args and isinstance(ggp, ast.keyword) and ggp.arg is None:
+                                continue
+                        ok = False
+                    if not ok:
+                        continue
+                    order = [k for k in fields if k in given]
+                    # evaluation order of the constructor call: positional arguments first, then keywords as written
+                    written = [fields[i] for i in range(len(b.value.args))] + [k.arg for k in b.value.keywords]
+                    new_assigns = [ast.copy_location(ast.Assign(targets=[ast.Name(id='%s__%s' % (name, f), ctx=ast.Store())], value=given[f]), b) for f in written]
+
+                    class R(ast.NodeTransformer):
+                        def visit_Attribute(self_, n):
+                            if isinstance(n.value, ast.Name) and n.value.id in group and n.attr in fields and isinstance(n.ctx, ast.Load):
+                                return ast.copy_location(ast.Name(id='%s__%s' % (name, n.attr), ctx=ast.Load()), n)
+                            self_.generic_visit(n)
+                            return n
+
+                        def visit_Call(self_, n):
+                            self_.generic_visit(n)
+                            kws = []
+                            for k in n.keywords:
+                                if k.arg is None and isinstance(k.value, ast.Call) and isinstance(k.value.func, ast.Attribute) and k.value.func.attr == '_asdict' and \
+                                        isinstance(k.value.func.value, ast.Name) and k.value.func.value.id in group:
+                                    kws.extend(ast.keyword(arg=f, value=ast.Name(id='%s__%s' % (name, f), ctx=ast.Load())) for f in fields)
+                                else:
+                                    kws.append(k)
+                            n.keywords = kws
+                            return n
+
+                    def rewrite(stmts):
+                        out = []
+                        for s_ in stmts:
+                            if s_ is b:
+                                out.extend(new_assigns)
+                                continue
+                            if isinstance(s_, ast.Assign) and len(s_.targets) == 1 and isinstance(s_.targets[0], ast.Name) and s_.targets[0].id in group and \
+                                    isinstance(s_.value, ast.Name) and s_.value.id in group:
+                                continue        # alias of the tuple: gone
+                            for fld in ('body', 'orelse', 'finalbody'):
+                                bb = getattr(s_, fld, None)
+                                if isinstance(bb, list) and bb and isinstance(bb[0], ast.stmt) and not isinstance(s_, (ast.FunctionDef, ast.ClassDef)):
+                                    setattr(s_, fld, rewrite(bb) or [ast.copy_location(ast.Pass(), s_)])
+                            for h in getattr(s_, 'handlers', []) or []:
+                                h.body = rewrite(h.body) or [ast.copy_location(ast.Pass(), h)]
+                            out.append(R().visit(s_))
+                        return out
+                    fn.body = rewrite(fn.body)
+                    for n_ in new_assigns:
+                        ast.fix_missing_locations(n_)
+                    norm_.inlined.append((b.value.func.id, fn.name, 'namedtuple-scalarised'))
 
     def _merge_conditional_calls(self):
         """`f(args) if c else g(args)` (same argument expressions) -> `(f if c else g)(args)`: test, callee, arguments are evaluated in
